@@ -526,3 +526,46 @@ pub fn forcing_program_with_ballast(call: &str, ret: &Ty) -> String {
     let ballast = "b".repeat(1400);
     format!("let v_ballast = \"{ballast}\";\n{}", forcing_program(call, ret))
 }
+
+/// an empty value of type `t` (typed), for collection-like types
+pub fn empty_of(t: &Ty) -> Option<String> {
+    Some(match t {
+        Ty::Str => "\"\"".to_string(),
+        Ty::Named(n, a) => match (n.as_str(), a.as_slice()) {
+            ("Sequence", [x]) => format!("cast<Sequence<{}>>([])", render(x)?),
+            ("Generator", [x]) => format!("cast<Sequence<{}>>([]).to_generator()", render(x)?),
+            ("Optional", [x]) => format!("cast<Optional<{}>>(none())", render(x)?),
+            ("Set", [x]) if matches!(x, Ty::Int | Ty::Generic(_) | Ty::Str) => format!("set<{}>()", render(x)?),
+            ("Mapping", [k, v]) if matches!(k, Ty::Int | Ty::Generic(_) | Ty::Str) => format!("mapping<{}>().set({}, {}).pop({})", render(k)?, sample(k, 0)?, sample(v, 0)?, sample(k, 0)?),
+            ("Mapping", [k]) if matches!(k, Ty::Int | Ty::Generic(_) | Ty::Str) => format!("mapping<{}>().set({}, 1).pop({})", render(k)?, sample(k, 0)?, sample(k, 0)?),
+            ("Stack", [x]) => format!("stack().push({}).tail()", sample(x, 0)?),
+            _ => return None,
+        },
+        _ => return None,
+    })
+}
+
+/// (file stem, function name) of every documented function whose description says it is short-circuiting:
+/// such a function is documented not to evaluate some argument in some situation
+pub fn short_circuiting() -> std::collections::BTreeSet<(String, String)> {
+    let dir = format!("{}/book/src/std", corpus::repo_root());
+    let mut out = std::collections::BTreeSet::new();
+    let Ok(rd) = std::fs::read_dir(&dir) else { return out };
+    let mut files: Vec<_> = rd.filter_map(|e| e.ok()).map(|e| e.path()).filter(|p| p.extension().map_or(false, |x| x == "md")).collect();
+    files.sort();
+    for f in files {
+        let stem = f.file_stem().and_then(|s| s.to_str()).unwrap_or("").to_string();
+        let Ok(text) = std::fs::read_to_string(&f) else { continue };
+        let mut current: Option<String> = None;
+        for line in text.lines() {
+            if let Some(rest) = line.strip_prefix("## fn `") {
+                current = rest.split(|c: char| c == '(' || c == '<').next().map(|n| n.trim().to_string());
+            } else if line.to_lowercase().contains("short-circuit") || line.to_lowercase().contains("short circuit") {
+                if let Some(n) = &current {
+                    out.insert((stem.clone(), n.clone()));
+                }
+            }
+        }
+    }
+    out
+}
